@@ -30,6 +30,11 @@ func (s *State) LoginEnable(pass string, cfg *program.Config) {
 		// Enter enable mode.
 		if !waitPrompt("enable", "#") {
 			// Enable password required.
+			// Must not send password if device didn't ask for it.
+			// Otherwise it would be echoed and logged as a command.
+			if !strings.HasSuffix(strings.ToLower(out), "password:") {
+				errlog.Abort("Authentication for enable mode failed")
+			}
 			// Use login password as enable password.
 			if !waitPrompt(pass, "#") {
 				errlog.Abort("Authentication for enable mode failed")
